@@ -102,9 +102,9 @@ func TestC20(t *testing.T) {
 	h.RunProp(t, limitGrid, 0)
 	h.RunProp(t, restart, h.N(600, 2500))
 	h.RunProp(t, restartCtl, h.N(150, 700))
-	h.RunProp(t, crash, h.N(70, 220))
-	h.RunProp(t, crashExit, h.N(25, 40))
-	h.RunProp(t, settings, h.N(20, 60))
+	h.RunProp(t, crash, h.N(50, 220))
+	h.RunProp(t, crashExit, h.N(15, 40))
+	h.RunProp(t, settings, h.N(16, 60))
 
 	if h.C.Shard != 0 {
 		return // the enumerations are done by shard 0 only
